@@ -55,7 +55,7 @@ PROPS = {
                 quick=['std-lax'], thorough=['std-lax', 'nostd-lax']),
     'C09': dict(workload='C09', oracle=['C09'], project=proj_identity, spec_ops=('contchk',),
                 quick=['std-lax'], thorough=['std-lax', 'std-strict', 'nostd-lax']),
-    'C10': dict(workload='C10', oracle=['C10'], project=proj_identity,
+    'C10': dict(workload='C10', oracle=['C10'], project=proj_identity, spec_ops=('contval',),
                 quick=['std-lax'], thorough=['std-lax', 'std-strict', 'nostd-lax']),
     'C11': dict(workload='C11', oracle=['C11'], project=proj_identity,
                 quick=['std-lax', 'nostd-lax'], thorough=list(CONFIGS)),
